@@ -304,7 +304,12 @@ fn gen_goal(r: &mut Rng, w: &Weights, arities: &[usize], level: usize, depth: us
                 for _ in 0..n {
                     args.push(if r.chance(1, 5) { atom!(*r.pick(&["%s", "5%s", "a%sb%s"])) } else { gen_arg(r, w, true) });
                 }
-                bip("print", args)
+                // the format text may reach print through a bound variable
+                if r.chance(1, 4) {
+                    let v = lv(*r.pick(&VARS));
+                    let fmt = std::mem::replace(&mut args[0], v.clone());
+                    Goal::OperatorGoal(Operator::And(vec![bip("unify", vec![v, fmt]), bip("print", args)]))
+                } else { bip("print", args) }
             },
             _ => bip("print_list", vec![gen_arg(r, w, true)]),
         },
@@ -468,7 +473,7 @@ fn canon_answers(info: &RunInfo) -> Vec<String> {
 }
 
 pub fn emit_c11(out: &mut Out, cfg: &Cfg, c: &Case, r: &mut Rng) {
-    let base = match emit_info(out, cfg, c) { Some(i) => i, None => { for _ in 0..3 { let _ = out.begin(); } return; } };
+    let base = match emit_info(out, cfg, c) { Some(i) => i, None => { for _ in 0..4 { let _ = out.begin(); } return; } };
     let want = canon_answers(&base);
     let perm: Vec<usize> = { let mut p: Vec<usize> = (0..VARS.len()).collect(); for i in (1..p.len()).rev() { let j = r.below(i + 1); p.swap(i, j); } p };
     let variants: Vec<Box<dyn Fn(usize, &str) -> String>> = vec![
@@ -478,6 +483,8 @@ pub fn emit_c11(out: &mut Out, cfg: &Cfg, c: &Case, r: &mut Rng) {
         Box::new(move |_ri, n| { match VARS.iter().position(|v| *v == n) { Some(k) => VARS[perm[k]].to_string(), None => n.to_string() } }),
         // long / non-ASCII names
         Box::new(|_ri, n| format!("$Überlang_{}_Ω", &n[1..])),
+        // names that differ only by a numeric suffix: $P, $P_1, $P_2, $P_3
+        Box::new(|_ri, n| { match VARS.iter().position(|v| *v == n) { Some(0) => "$P".to_string(), Some(k) => format!("$P_{}", k), None => n.to_string() } }),
     ];
     let mut ok = true; let mut msg = String::new();
     for (vi, f) in variants.iter().enumerate() {
